@@ -22,7 +22,7 @@ func init() {
 		NotDecided:  []string{"fairness between writers", "the hand-over race on session.cryptographer at the plaintext->encrypted switch (no subscription can exist before verification)"},
 		NeedsCG:     true,
 		Rules: []core.Rule{
-			{ID: "C08-R1", Title: "counter take and socket write in one critical section", Decides: "no frame counter emitted out of order", Floor: 2, Run: c08r1},
+			{ID: "C08-R1", Title: "counter take and socket write in one critical section", Decides: "no frame counter emitted out of order", Floor: 2, Run: func(c *core.Ctx) { c08r1(c); polarityEverywhere(c, "C08") }},
 			{ID: "C08-R2", Title: "nobody else takes the counter", Decides: "no frame counter reused or skipped by another path", Floor: 2, Run: c08r2},
 			{ID: "C08-R3", Title: "nobody else writes the raw socket", Decides: "every writer goes through the serialised path", Floor: 3, Run: func(c *core.Ctx) { c08r3(c); socketIsTheAcceptedOne(c); returnsUndecorated(c, "C08") }},
 			{ID: "C08-R4", Title: "one payload, one section", Decides: "each write's payload reaches the peer intact and contiguous", Floor: 1, Run: c08r4},
